@@ -16,17 +16,19 @@ from typing import Any, Dict, List, Optional, Tuple
 from hypothesis import strategies as st
 
 import celpy  # imported, never used in this (parent) process: histories run in forked children
-from vf import common, fresh, outcome
+from vf import common, fresh, hostfuncs, outcome
 
 RULE = (
     "histories of <= 30 (quick) / 60 (thorough) operations {new Environment(runner class, package, annotations), compile+program, evaluate(bindings), re-evaluate} "
-    "over pools of expressions and bindings built to touch shared state (dotted names, packages, macros, ||-absorbed errors, the same name bound then unbound); each "
+    "over pools of expressions and bindings built to touch shared state (dotted names, packages, macros, ||-absorbed errors, the same name bound then unbound, host functions given to "
+    "one program as a list or a dict - one of them shadowing the built-in size() - and used by programs that were not given them); each "
     "history executed in a forked child of an import-only process. non-trivial = an evaluate preceded by an environment of the other runner class, by an evaluation of "
-    "the same program with other bindings, or by an evaluation with dotted bindings. distinct by history."
+    "the same program with other bindings, by an evaluation with dotted bindings, or by a program built with other host functions. distinct by history."
 )
 
 EXPRS = ["x + 1", "x + y", "a.b", "a.b + x", "a.c", "a.b.c", "[1, 2].map(x, x + y)", "x > 0 || 1 / 0 == 1", "size([x, y])", "has(m.f)", "m.f", "v", "p.v", "true ? x : y",
-         "type(x) == int", "[x].exists(x, x == 1)", "a", "x == 1 && a.b == 10", "1 + 2", "s + 'x'", "s.size()", "[1, 2, 3].filter(i, i > x)"]
+         "type(x) == int", "[x].exists(x, x == 1)", "a", "x == 1 && a.b == 10", "1 + 2", "s + 'x'", "s.size()", "[1, 2, 3].filter(i, i > x)",
+         "shout(s)", "size(s)", "s.shout()", "size([x, y]) + size(s)"]
 BINDINGS: List[Dict[str, Any]] = [
     {"x": 1, "y": 2}, {"x": 5}, {}, {"a.b": 10}, {"a.b": 10, "x": 1}, {"a.b": 1, "a.c": 2}, {"a.c": 3}, {"a": {"b": 7}}, {"a": {"b": 7, "c": 8}, "x": 2}, {"a.b.c": 4},
     {"m": {"f": 1}}, {"m": {}}, {"p.v": 3}, {"v": 4}, {"p.q.v": 5, "v": 6}, {"s": "abc"}, {"x": 1, "y": 2, "s": "q"}, {"y": 9}, {"a.b": 20}, {"x": 0, "y": 0},
@@ -38,7 +40,7 @@ ANNOTATIONS = {"none": {}, "plain": {"x": "int", "s": "string"}, "dotted": {"a.b
 def op_strategy():
     return st.one_of(
         st.tuples(st.just("env"), st.integers(0, len(ENVS) - 1)),
-        st.tuples(st.just("prog"), st.integers(0, 50), st.integers(0, len(EXPRS) - 1)),
+        st.tuples(st.just("prog"), st.integers(0, 50), st.integers(0, len(EXPRS) - 1), st.sampled_from([0, 0, 0, 1, 2, 3, 4])),
         st.tuples(st.just("eval"), st.integers(0, 50), st.integers(0, len(BINDINGS) - 1)),
         st.tuples(st.just("eval"), st.integers(0, 50), st.integers(0, len(BINDINGS) - 1)),
         st.tuples(st.just("reeval"), st.integers(0, 50)),
@@ -78,7 +80,7 @@ def _child_run(ops: List[Tuple]) -> List[Any]:
     RUN = {"I": celpy.InterpretedRunner, "C": celpy.CompiledRunner}
     ANN = {"int": ct.IntType, "string": ct.StringType}
     envs: List[Tuple[Any, int]] = []
-    progs: List[Tuple[Any, int, int, Any]] = []  # (program | None, env index, expr index, construction outcome)
+    progs: List[Tuple[Any, int, int, Any, int]] = []  # (program | None, env index, expr index, construction outcome, host-function config)
     last_bind: Dict[int, int] = {}
     records: List[Any] = []
     for i, op in enumerate(ops):
@@ -93,16 +95,17 @@ def _child_run(ops: List[Tuple]) -> List[Any]:
             if not envs:
                 continue
             e, cfg = envs[op[1] % len(envs)]
+            fn = op[3] if len(op) > 3 else 0
             try:
                 ast = e.compile(EXPRS[op[2]])
-                progs.append((e.program(ast), cfg, op[2], None))
+                progs.append((e.program(ast, functions=hostfuncs.CONFIGS[fn]), cfg, op[2], None, fn))
             except Exception as ex:
-                progs.append((None, cfg, op[2], ["crash", type(ex).__name__, "program"]))
+                progs.append((None, cfg, op[2], ["crash", type(ex).__name__, "program"], fn))
         elif op[0] in ("eval", "reeval"):
             if not progs:
                 continue
             pi = op[1] % len(progs)
-            prgm, cfg, ei, construction = progs[pi]
+            prgm, cfg, ei, construction, fn = progs[pi]
             if op[0] == "reeval":
                 if pi not in last_bind:
                     continue
@@ -124,7 +127,7 @@ def _child_run(ops: List[Tuple]) -> List[Any]:
                 except Exception as ex:
                     out = ["crash", type(ex).__name__, "evaluate"]
             after = {k: outcome.value_outcome(v) for k, v in binds.items()}
-            records.append({"at": i, "kind": op[0], "prog": pi, "cfg": cfg, "expr": ei, "bind": bi, "out": out, "bindings_modified": before != after or keys_before != sorted(binds)})
+            records.append({"at": i, "kind": op[0], "prog": pi, "cfg": cfg, "expr": ei, "bind": bi, "fn": fn, "out": out, "bindings_modified": before != after or keys_before != sorted(binds)})
     return records
 
 
@@ -175,6 +178,10 @@ def influences(ops: List[Tuple], records: List[Any], rec: Any) -> List[str]:
         out.append("same-program-other-bindings")
     if any(any("." in k for k in BINDINGS[r["bind"]]) for r in earlier):
         out.append("earlier-dotted-bindings")
+    progs_before = [o for o in ops[: rec["at"]] if o[0] == "prog"]
+    mine = rec.get("fn", 0)
+    if any((o[3] if len(o) > 3 else 0) not in (0, mine) for o in progs_before):
+        out.append("earlier-program-with-other-host-functions")
     return out
 
 
@@ -193,7 +200,7 @@ def check_history(run: common.Run, ops: List[Tuple], report) -> None:
             report(f"environment-constructor-raises-{rec['exc']}", dict(case, at=rec["at"]), f"Environment() raised {rec['exc']} at step {rec['at']}")
             continue
         r, p, a = ENVS[rec["cfg"]]
-        alone = list(z.alone(r, p, ANNOTATIONS[a], EXPRS[rec["expr"]], BINDINGS[rec["bind"]]))
+        alone = list(z.alone(r, p, ANNOTATIONS[a], EXPRS[rec["expr"]], BINDINGS[rec["bind"]], rec.get("fn", 0)))
         run.tick()
         infl = influences(ops, records, rec)
         if infl:
@@ -222,7 +229,7 @@ def _describe(o: Tuple) -> str:
     if o[0] == "env":
         return f"Environment{ENVS[o[1]]}"
     if o[0] == "prog":
-        return f"program(env#{o[1]}, {EXPRS[o[2]]!r})"
+        return f"program(env#{o[1]}, {EXPRS[o[2]]!r}, functions={hostfuncs.NAMES[o[3] if len(o) > 3 else 0]})"
     if o[0] == "eval":
         return f"evaluate(prog#{o[1]}, {BINDINGS[o[2]]})"
     return f"re-evaluate(prog#{o[1]})"
@@ -239,6 +246,12 @@ FIXED_HISTORIES = [
     [("env", ENVS.index(("C", "p", "none"))), ("prog", 0, EXPRS.index("v")), ("eval", 0, 12), ("eval", 0, 13), ("eval", 0, 2)],
     [("env", ENVS.index(("C", None, "none"))), ("prog", 0, EXPRS.index("x + y")), ("eval", 0, 0), ("eval", 0, 1), ("eval", 0, 17), ("reeval", 0)],
     [("env", ENVS.index(("C", None, "none"))), ("prog", 0, EXPRS.index("a.c")), ("eval", 0, 5), ("eval", 0, 3)],
+    # a program given host functions (list / dict form, one shadowing a built-in), then programs that were not given them
+    [("env", ENVS.index(("I", None, "none"))), ("prog", 0, EXPRS.index("size(s)"), 0), ("eval", 0, 15), ("prog", 0, EXPRS.index("shout(s)"), 3), ("eval", 1, 15), ("reeval", 0),
+     ("prog", 0, EXPRS.index("size(s)"), 0), ("eval", 2, 15), ("prog", 0, EXPRS.index("shout(s)"), 0), ("eval", 3, 15),
+     ("env", ENVS.index(("C", None, "none"))), ("prog", 1, EXPRS.index("size(s)"), 0), ("eval", 4, 15)],
+    [("env", ENVS.index(("I", None, "none"))), ("prog", 0, EXPRS.index("s.shout()"), 1), ("eval", 0, 15), ("prog", 0, EXPRS.index("size(s)"), 4), ("eval", 1, 15),
+     ("env", ENVS.index(("I", "p", "none"))), ("prog", 1, EXPRS.index("size([x, y]) + size(s)"), 0), ("eval", 2, 16), ("prog", 1, EXPRS.index("s.shout()"), 0), ("eval", 3, 15)],
 ]
 
 
